@@ -65,8 +65,23 @@ func main() {
 			}()
 		}
 		out := map[string]core.AnchorPrint{}
+		var keys []string
 		for k := range p.Lookups {
+			keys = append(keys, k)
+		}
+		p.Lookups = nil
+		for _, k := range keys {
 			parts := strings.SplitN(k, "|", 3)
+			if parts[1] == "" || parts[1] == "*" {
+				// a callee named without its receiver: every unexported method / function of that name
+				for _, f := range p.FuncsIn(core.ModPath + "/" + parts[0]) {
+					if f.Parent() == nil && f.Name() == parts[2] && f.Blocks != nil && (f.Object() == nil || !f.Object().Exported()) {
+						id := core.FuncID(f)
+						out[parts[0]+"|"+id.Recv+"|"+parts[2]] = core.Fingerprint(f)
+					}
+				}
+				continue
+			}
 			if f := p.Func(parts[0], parts[1], parts[2]); f != nil && f.Blocks != nil && (f.Object() == nil || !f.Object().Exported()) {
 				out[k] = core.Fingerprint(f)
 			}
